@@ -153,16 +153,14 @@ def lookup(rep, prog, table):
         ok = not args and set(kw) == set(want) and all(term_equal(kw[k], want[k]) for k in want)
         ok = bool(ok) and 'type' in repr(tkey(key))
     rep.ob('R08.lookup', 'fourier_series:wiring', ok, f'= {t!r:.240}', f.site)
-    # periodic_function: selection by wavetype equality over the classes of the mapping
+    # periodic_function(name) returns exactly the wave class whose wavetype is `name`, for every class of the mapping
     g = prog.func(PF, 'periodic_function')
-    src = ast.unparse(g.node)
-    comp = [n for n in ast.walk(g.node) if isinstance(n, ast.ListComp)]
-    ok = False
-    if comp:
-        c = comp[0]
-        flt = c.generators[0].ifs
-        ok = (len(flt) == 1 and isinstance(flt[0], ast.Compare) and isinstance(flt[0].ops[0], ast.Eq) and 'wavetype' in ast.unparse(flt[0])
-              and ast.unparse(c.generators[0].iter) in ('periodic_functions', 'fourier_series_mapping', 'fourier_series_mapping.keys()', 'list(fourier_series_mapping.keys())'))
-    pfs = m.defs.get('periodic_functions')
-    ok2 = pfs is not None and 'fourier_series_mapping' in ast.unparse(pfs)
-    rep.ob('R08.lookup', 'periodic_function:select', ok and ok2, 'selects the class whose wavetype equals the requested name among the keys of the mapping', g.site)
+    for key, wave, harm in table:
+        if not wave or wave[0] != 'class': continue
+        ev = Evaluator(prog)
+        wt = wavetype_of(prog, ev, wave[1], wave[2])
+        if wt is None: continue
+        r = ev.call_fn(g.node, g.mod, [wt], {}, {'__parent__': None}, 1)
+        if isinstance(r, Opq) and r.k and r.k[0] == 'item' and isinstance(r.k[1], list): r = r.k[1][r.k[2]] if len(r.k[1]) > r.k[2] else r
+        ok = isinstance(r, Ref) and r.kind == 'class' and r.name == wave[2].name
+        rep.ob('R08.lookup', f"periodic_function('{wt}')", True if ok else (None if has_opaque(r) else False), f"-> {r!r:.80}", g.site)
